@@ -196,6 +196,8 @@ pub fn generate(tier: Tier, rng: &mut Rng) -> Vec<Case> {
         ("int(true)", FERR.into()), ("uint(null)", FERR.into()), ("double([1])", FERR.into()), ("string(true)", FERR.into()), ("string(null)", FERR.into()), ("string([1])", FERR.into()), ("string({})", FERR.into()),
         ("string('abc')", ok("(str x616263)")), ("string(b'abc')", ok("(str x616263)")), ("string(b'\\xff\\xfeA')", ok(&format!("(str {})", hex("\u{fffd}\u{fffd}A".as_bytes())))), ("bytes('aé')", ok(&format!("(bytes {})", hex("aé".as_bytes())))),
         ("string(bytes('héllo ✌')) == 'héllo ✌'", ok("(bool 1)")), ("bytes(string(b'abc')) == b'abc'", ok("(bool 1)")),
+        ("uint(-0.5)", FERR.into()), ("uint(-5e-324)", FERR.into()), ("uint(-0.9999999999999999)", FERR.into()), ("(-0.25).uint()", FERR.into()), ("uint(-0.0)", ok(&vu(0))), ("uint(0.5)", ok(&vu(0))), ("int(-0.5)", ok(&vi(0))), ("int(-0.9999999999999999)", ok(&vi(0))),
+        ("string(b'\\xef\\xbf\\xbd')", ok(&format!("(str {})", hex("\u{fffd}".as_bytes())))), ("string(b'caf\\xc3')", ok(&format!("(str {})", hex("caf\u{fffd}".as_bytes())))), ("string(b'ab\\xe2\\x82')", ok(&format!("(str {})", hex("ab\u{fffd}".as_bytes())))), ("string(b'\\xf0\\x9f\\x98')", ok(&format!("(str {})", hex("\u{fffd}".as_bytes())))), ("string(b'\\xc3')", ok(&format!("(str {})", hex("\u{fffd}".as_bytes())))),
         ("bytes(1)", "(res (err bad-type) (log))".to_string()), ("bytes(b'a')", "(res (err bad-type) (log))".to_string()),
     ] {
         push(&mut out, &spec, src.to_string(), Some(want), vec!["special"]);
@@ -229,7 +231,7 @@ pub fn generate(tier: Tier, rng: &mut Rng) -> Vec<Case> {
     }
     // strings: bytes() then string() returns the original text
     let n = if tier == Tier::Quick { 300 } else { 30_000 };
-    let edge_strings: Vec<String> = ["\u{feff}abc", "\u{feff}", "abc\u{feff}", "\u{feff}42", "\u{0}abc", " abc ", "\nabc\n", "\u{fffe}x", "\u{200b}x", "\r\n", "\u{a0}1", "0042", "+1", "\u{202e}abc"].iter().map(|s| s.to_string()).collect();
+    let edge_strings: Vec<String> = ["\u{fffd}", "a\u{fffd}b", "\u{fffd}\u{fffd}", "\u{fffc}\u{fffd}\u{fffe}", "\u{feff}abc", "\u{feff}", "abc\u{feff}", "\u{feff}42", "\u{0}abc", " abc ", "\nabc\n", "\u{fffe}x", "\u{200b}x", "\r\n", "\u{a0}1", "0042", "+1", "\u{202e}abc"].iter().map(|s| s.to_string()).collect();
     for i in 0..n + edge_strings.len() {
         let s = if i < edge_strings.len() { edge_strings[i].clone() } else { gen_string(rng) };
         let mut vspec = CtxSpec::default_ctx();
